@@ -97,7 +97,7 @@ def seq_steps(fns, k, pfx="s"):
     off, rem0 = "%s.offset" % pfx, "%s.total_len" % pfx
     decls[off] = decls[rem0] = "(_ BitVec 64)"
     rem = rem0
-    steps, vcs = [], []
+    steps, vcs, assumes = [], [], []
     for i in range(k):
         u = "%s.U%d" % (pfx, i)
         decls[u] = "(_ BitVec 32)"
@@ -107,8 +107,6 @@ def seq_steps(fns, k, pfx="s"):
             path.store[sym.key(sym.resolve(path, symex.parse_place(off_place)))] = symex.bv(off, 64)
             path.store[sym.key(sym.resolve(path, symex.parse_place(rem_place)))] = symex.bv(rem, 64)
             path.store[idx_local] = symex.bv(bvconst(i, 64), 64)
-            # get_one_term's contract: the returned vector has exactly unpacked_length bytes
-            path.store["len(%s)" % data_local] = symex.bv(_z32(u), 64)
 
         rp_key = {}
 
@@ -120,6 +118,11 @@ def seq_steps(fns, k, pfx="s"):
             raise RuntimeError("expected one path reaching the remaining_len update for term %d, got %d" % (i, len(ok)))
         p = ok[0]
         decls.update(s.decls)
+        # get_one_term's contract: the returned vector has exactly unpacked_length bytes
+        lens = set(v.t for pth in paths for k_, v in pth.store.items() if k_.startswith("len("))
+        if len(lens) != 1:
+            raise RuntimeError("expected exactly one container length (term_data.len()) in the region, got %s" % lens)
+        assumes.append(mk_eq(list(lens)[0], _z32(u)))
         st = dict(start=s.debug_val(p, "start").t, end=s.debug_val(p, "end").t, len=s.debug_val(p, "len_written").t, U=u, pc=list(p.pc))
         rem = s.load(p, s.resolve(p, symex.parse_place(rem_place)), "u64").t
         st["remaining_out"] = rem
@@ -134,7 +137,7 @@ def seq_steps(fns, k, pfx="s"):
         if key not in seen:
             seen.add(key)
             uv.append((l, pc, c))
-    return decls, off, rem0, steps, uv
+    return decls, off, rem0, steps, uv, assumes
 
 
 def contract(off, total, us, ranged):
@@ -175,7 +178,9 @@ def build_writer(fns, k, which):
         if which == "parallel":
             decls, off, total, steps, vcs = par_steps(fns, k)
         else:
-            decls, off, total, steps, vcs = seq_steps(fns, k)
+            decls, off, total, steps, vcs, assumes = seq_steps(fns, k)
+            for a in assumes:
+                sc.assume(a)
         sc.declare(decls)
         us = [s["U"] for s in steps]
         pre, sumu = contract(off, total, us, ranged)
@@ -209,7 +214,9 @@ def build_writer(fns, k, which):
     if which == "parallel":
         decls, off, total, steps, vcs = par_steps(fns, min(k, 2))
     else:
-        decls, off, total, steps, vcs = seq_steps(fns, min(k, 2))
+        decls, off, total, steps, vcs, assumes = seq_steps(fns, min(k, 2))
+        for a in assumes:
+            sc.assume(a)
     sc.declare(decls)
     disj = ["(and %s)" % " ".join(pc + [mk_not(cond)]) if pc else mk_not(cond) for _, pc, cond in vcs]
     sc.query("witness: without offset < first length some check can fail", ["(or %s)" % " ".join(disj)], expect="sat", kind="witness")
@@ -221,9 +228,11 @@ def build_agree(fns, k):
     """Both writers compute the same (start, end) per term from the same plan."""
     sc = smt.Script("c17_writers_agree_k%d" % k)
     d1, off1, tot1, st1, _ = par_steps(fns, k, "p")
-    d2, off2, tot2, st2, _ = seq_steps(fns, k, "s")
+    d2, off2, tot2, st2, _, assumes = seq_steps(fns, k, "s")
     sc.declare(d1)
     sc.declare(d2)
+    for a in assumes:
+        sc.assume(a)
     sc.assume(mk_eq(off1, off2))
     sc.assume(mk_eq(tot1, tot2))
     for a, b in zip(st1, st2):
